@@ -184,3 +184,56 @@ def ancestors(model, node):
     while cur is not None:
         yield cur
         cur = model.parent(cur)
+
+
+def const_value(model, fi, e, depth=0):
+    """Value of a display of constants wherever the repository keeps it: written in place, in a local of `fi`, in `self.<name>` (class-level
+    assignment or an assignment in __init__ of the class hierarchy), or in a module-level name. Raises ValueError when it is not such a display."""
+    if depth > 6:
+        raise ValueError('too deep')
+    if isinstance(e, ast.Constant):
+        return e.value
+    if isinstance(e, (ast.List, ast.Tuple, ast.Set)):
+        vals = [const_value(model, fi, x, depth + 1) for x in e.elts]
+        return vals if isinstance(e, ast.List) else (tuple(vals) if isinstance(e, ast.Tuple) else set(vals))
+    if isinstance(e, ast.Dict):
+        return {const_value(model, fi, k, depth + 1): (src(v) if not isinstance(v, (ast.Constant, ast.List, ast.Tuple, ast.Set, ast.Dict)) else const_value(model, fi, v, depth + 1)) for k, v in zip(e.keys, e.values)}
+    if isinstance(e, ast.BinOp) and isinstance(e.op, (ast.Add, ast.BitOr)):
+        a, b = const_value(model, fi, e.left, depth + 1), const_value(model, fi, e.right, depth + 1)
+        return (a + b) if isinstance(e.op, ast.Add) else (set(a) | set(b))
+    if isinstance(e, ast.Call) and isinstance(e.func, ast.Name) and e.func.id in ('set', 'frozenset', 'tuple', 'list', 'sorted') and len(e.args) == 1 and not e.keywords:
+        v = const_value(model, fi, e.args[0], depth + 1)
+        return {'set': set, 'frozenset': set, 'tuple': tuple, 'list': list, 'sorted': sorted}[e.func.id](v)
+    if isinstance(e, ast.Name):
+        d = single_def(local_defs(fi.node), e.id) if fi is not None else None
+        if d is not None:
+            return const_value(model, fi, d, depth + 1)
+        v = model.module_assigns.get(fi.module if fi is not None else None, {}).get(e.id)
+        if v is not None:
+            return const_value(model, fi, v, depth + 1)
+        raise ValueError('name %s is not a constant display' % e.id)
+    if isinstance(e, ast.Attribute) and isinstance(e.value, ast.Name) and e.value.id in ('self', 'cls') and fi is not None and fi.cls:
+        for k in model.mro(fi.cls):
+            ci = model.classes.get(k)
+            if ci is None:
+                continue
+            for st in ci.node.body:
+                if isinstance(st, ast.Assign) and any(isinstance(t, ast.Name) and t.id == e.attr for t in st.targets):
+                    return const_value(model, _ModuleOnly(ci.module), st.value, depth + 1)
+            init = model.funcs.get(k + '.__init__')
+            if init is not None:
+                for n in walk_own(init.node):
+                    if isinstance(n, ast.Assign) and any(isinstance(t, ast.Attribute) and src(t.value) == 'self' and t.attr == e.attr for t in n.targets):
+                        return const_value(model, init, n.value, depth + 1)
+        raise ValueError('self.%s is not a constant display' % e.attr)
+    raise ValueError('not a constant display: ' + src(e))
+
+
+class _ModuleOnly(object):
+    """Stand-in for a FuncInfo when a class-level expression is evaluated: only module-level names are visible."""
+
+    def __init__(self, module):
+        import ast as _ast
+        self.module = module
+        self.cls = None
+        self.node = _ast.parse('def _(): pass').body[0]
